@@ -40,7 +40,7 @@ class Budget(Exception):
 
 
 def bounds(tier):
-    return {"graphs": len(dagfam.all_graphs()), "ladder_depth": 60, "budget_factor": BUDGET_FACTOR}
+    return {"graphs": len(dagfam.all_graphs(tier)), "ladder_depth": 60, "budget_factor": BUDGET_FACTOR}
 
 
 def all_mapper_classes():
@@ -281,7 +281,7 @@ def _alarm(signum, frame):
 
 def run_case(case):  # noqa: C901
     import pytato as pt
-    graphs = {n: (b, d) for n, b, d in dagfam.all_graphs()}
+    graphs = {n: (b, d) for n, b, d in dagfam.all_graphs("thorough")}
     build, has_dup = graphs[case["graph"]]
     g = build()
     props = graph_props(case["graph"])
